@@ -193,3 +193,15 @@ Definition poison (stack : list nat) (cache : nat -> option cst) : nat -> option
   fun i => if mem i stack then (match cache i with None => Some CCancelled | c => c end) else cache i.
 (* ToLeafNode on a node whose cache is set returns it without looking at any context *)
 Definition to_leaf_cached (cache : nat -> option cst) (i : nat) : option cst := cache i.
+
+(* ---------- ToLeafNode's cancel branch with denotations ----------
+   cache i = None: op node i not evaluated; Some (VRes r): evaluated, denotes r; Some VCancelled: poisoned.
+   The branch walks the explicit stack and writes the Cancelled leaf into frame->op_node->cache_ -- only where no cache
+   exists when `guarded` (the `if (!frame->op_node->cache_)` test; read from the source by the translator) -- and then
+   unconditionally into this->cache_ (`root`; unset on entry, ToLeafNode returns early otherwise). *)
+Inductive cval := VRes (r : nat) | VCancelled.
+Definition cancel_branch (guarded : bool) (stack : list nat) (root : nat) (cache : nat -> option cval) : nat -> option cval :=
+  fun i => if Nat.eqb i root then Some VCancelled
+           else if mem i stack
+                then (if guarded then match cache i with None => Some VCancelled | c => c end else Some VCancelled)
+                else cache i.
